@@ -4,6 +4,8 @@
 use crate::engine::*;
 
 pub mod c01;
+pub mod c02;
+pub mod c03;
 pub mod c04;
 pub mod c05;
 pub mod c06;
@@ -29,6 +31,8 @@ pub struct Prop {
 
 pub const PROPS: &[Prop] = &[
     Prop { id: "C01", run: c01::run, eval: c01::eval },
+    Prop { id: "C02", run: c02::run, eval: c02::eval },
+    Prop { id: "C03", run: c03::run, eval: c03::eval },
     Prop { id: "C04", run: c04::run, eval: c04::eval },
     Prop { id: "C05", run: c05::run, eval: c05::eval },
     Prop { id: "C06", run: c06::run, eval: c06::eval },
